@@ -4,8 +4,15 @@ import RdfModel.Props.C10Ctx
 #print axioms RdfModel.C10Ctx.ctx_no_panic_piri
 #print axioms RdfModel.C10Ctx.iri_expand_no_panic
 #print axioms RdfModel.C10Ctx.ctd_no_panic
+#print axioms RdfModel.C10Ctx.ctd_cyclic
+#print axioms RdfModel.C10Ctx.ctd_defined
+#print axioms RdfModel.C10Ctx.iri_expand_no_fuel
+#print axioms RdfModel.C10Ctx.ctx_fuel_sufficient
+#print axioms RdfModel.C10Ctx.ctx_total
 #print axioms RdfModel.C10Ctx.prefix_flag_spec
 #print axioms RdfModel.C10Ctx.prefix_entry_spec
+#print axioms RdfModel.C10Ctx.iri_expand_refines_fragment
+#print axioms RdfModel.C10Ctx.ctx_refines_fragment_partial
 #print axioms RdfModel.C10Ctx.clone_fields
 #print axioms RdfModel.C10Ctx.clone_independent
 #print axioms RdfModel.C10Ctx.shallow_clone_not_independent
